@@ -14,6 +14,7 @@ from paramlib import lk
 
 class ParamStream(Stream):
     name = "deliver"
+    twins = False
     imports = "Field Matrix Base Kernel Network Solve Params Corr"
     case_type = "par_case"
     verdict_fn = "par_verdict"
@@ -23,7 +24,7 @@ class ParamStream(Stream):
         n = 300 if tier == "quick" else 5000
         out = []
         while len(out) < n:
-            t = paramlib.gen_tree(rng, rng.choice([1, 2, 2, 3]))
+            t = paramlib.gen_tree(rng, rng.choice([1, 2, 2, 3]), twins=self.twins, replace=self.twins)
             if "leaf" in t:
                 continue
             paramlib.sanitize(t)
@@ -70,7 +71,7 @@ class ParamStream(Stream):
             for i, ch in enumerate(t["children"]):
                 if len(t["children"]) > 1:
                     e = copy.deepcopy(d)
-                    del e["tree"]["children"][i]
+                    paramlib.drop_child(e["tree"], i)
                     paramlib.sanitize(e["tree"])
                     out.append(e)
                 if "children" in ch["node"] and not ch["rmap"]:
@@ -84,6 +85,10 @@ class ParamStream(Stream):
             if t["adds"]:
                 e = copy.deepcopy(d)
                 e["tree"]["adds"] = []
+                out.append(e)
+            if "replaced" in t:
+                e = copy.deepcopy(d)
+                del e["tree"]["replaced"]
                 out.append(e)
             for j in range(len(t["sdef"])):
                 e = copy.deepcopy(d)
@@ -99,6 +104,39 @@ class ParamStream(Stream):
                 "print([m.get_A(b,a) for a,b in pairs])\n")
 
 
+class SharedStream(ParamStream):
+    """the same model / solver object placed twice under different renamings; set_default_params replacing
+    the defaults after add_param (the definition defaults of the arguments become reachable)"""
+    name = "shared"
+    twins = True
+
+    def generate(self, rng, tier):
+        out = [d for d in super().generate(rng, tier)
+               if '"twin_of"' in json.dumps(d) or '"replaced"' in json.dumps(d)][:150 if tier == "quick" else 2000]
+        # directed: a solver defining a parameter through add_param whose argument has no solver default
+        # (defaults replaced), placed twice under different names of that argument; only one is given
+        for _ in range(40 if tier == "quick" else 400):
+            k, a = rng.sample(paramlib.POOL, 2)
+            n1, n2 = rng.sample([p for p in paramlib.POOL + [6, 7] if p not in (k, a)], 2)
+            fid = rng.choice([0, 2])
+            X = {"children": [{"rmap": [], "node": {"leaf": k, "default": paramlib.rq(rng)}}], "sdef": [],
+                 "adds": [{"name": k, "fun": fid, "args": [[a, paramlib.rq(rng)]]}], "set_after": False,
+                 "replaced": [] if rng.random() < 0.7 else [[a, paramlib.rq(rng)]]}
+            top = {"children": [{"rmap": [[a, n1]], "node": X},
+                                {"rmap": [[a, n2]], "node": copy.deepcopy(X), "twin_of": 0}],
+                   "sdef": [], "adds": [], "set_after": False}
+            if rng.random() < 0.3:
+                top["replaced"] = []
+            kw = {rng.choice([n1, n2]): paramlib.rq(rng)}
+            out.append({"tree": top, "kw": [[kk, v] for kk, v in kw.items()]})
+        return out
+
+    def classify(self, d):
+        s = json.dumps(d["tree"])
+        return "%s%s%s" % ("twin" if '"twin_of"' in s else "single", "/replaced" if '"replaced"' in s else "",
+                           "/addp" if '"fun"' in s else "")
+
+
 TRUSTED = [
     "Coq 8.16.1 kernel + vm_compute",
     "hand-written model Params.v tied to /repo by this correspondence run (sampled)",
@@ -106,7 +144,7 @@ TRUSTED = [
 ]
 
 if __name__ == "__main__":
-    main("C05", [ParamStream()],
+    main("C05", [ParamStream(), SharedStream()],
          level_text="props/C05.v; the tie builds hierarchies of solvers whose leaves are probes (transmission = the value of "
                     "their parameter) with random injective renamings incl. swaps and chains in every listing order, defaults at "
                     "model / solver level (before and after add_param), add_param definitions and explicit values, and compares "
